@@ -266,9 +266,13 @@ fn _touch(b: &mut Bytes) {
 pub trait AnyVal: Any + Send {
     fn eq_dyn(&self, other: &dyn AnyVal) -> bool;
     fn as_any(&self) -> &dyn Any;
+    fn debug(&self) -> String;
 }
 
-impl<T: PartialEq + Any + Send> AnyVal for T {
+impl<T: PartialEq + Any + Send + std::fmt::Debug> AnyVal for T {
+    fn debug(&self) -> String {
+        format!("{:?}", self)
+    }
     fn eq_dyn(&self, other: &dyn AnyVal) -> bool {
         match other.as_any().downcast_ref::<T>() {
             Some(o) => self == o,
@@ -294,7 +298,7 @@ pub struct GenType {
     pub dec_async: for<'a> fn(Proto, &'a mut crate::eval::PosStream, bool) -> AsyncDec<'a>,
 }
 
-fn dec_async_t<'a, T: Message + PartialEq + 'static>(proto: Proto, s: &'a mut crate::eval::PosStream, want_trailer: bool) -> AsyncDec<'a> {
+fn dec_async_t<'a, T: Message + PartialEq + std::fmt::Debug + 'static>(proto: Proto, s: &'a mut crate::eval::PosStream, want_trailer: bool) -> AsyncDec<'a> {
     Box::pin(crate::eval::gen_dec_async::<T>(proto, s, want_trailer))
 }
 
